@@ -2,7 +2,7 @@ SPECIFICATION Spec
 CONSTANTS
   MaxVariants = 3
   EmitCases = TRUE
-  Traits = {"Display", "Debug", "LowerHex", "UpperHex", "Octal", "Binary", "LowerExp", "UpperExp"}
+  Traits = {"Display", "Debug", "LowerHex", "UpperHex", "Octal", "Binary", "LowerExp", "UpperExp", "Pointer"}
 INVARIANTS
   P_C07
   P_C07_DefaultOnly
